@@ -390,3 +390,124 @@ Print Assumptions rs_eq_py_on_forms_time.
 Theorem fraction_value_in_range : forall f, frac_ok f = true -> 0 <= frac_value f < 1000000.
 Proof. exact frac_value_range. Qed.
 Print Assumptions fraction_value_in_range.
+
+(* ------------------------------------------------------------ the remaining well-formed forms (Proofs/C07More.v) *)
+From PV Require Import Model.IsoFormsPrec Proofs.C07More.
+
+(* bare hhmmss (no T), pure-Python parser after the repair of py-hhmmss-leading-zero: time(H, M, S) for EVERY valid time — the full
+   statement that time_bare_hhmmss_py_partial names as missing (digit-blindness of the regex: one computation on "000000") *)
+Theorem time_bare_hhmmss_py : forall H M S, valid_time H M S 0 = true ->
+  py_parse_iso (render2 H ++ render2 M ++ render2 S) = Ok (mkp 3 0 0 0 H M S 0 None).
+Proof. exact py_parse_iso_bare_hhmmss. Qed.
+Print Assumptions time_bare_hhmmss_py.
+
+(* the compiled parser refuses every bare hhmmss (listed finding rs-bare-hhmmss-rejected, universally) *)
+Theorem time_bare_hhmmss_rs_rejected : forall H M S, 0 <= H < 100 -> 0 <= M < 100 -> 0 <= S < 100 ->
+  rs_parse_iso (render2 H ++ render2 M ++ render2 S) = Raise E_ValueError.
+Proof. exact rs_parse_iso_bare_hhmmss_rejected. Qed.
+Print Assumptions time_bare_hhmmss_rs_rejected.
+
+(* ... and every T-prefixed extended time with seconds (listed finding rs-T-extended-time-rejected, universally) *)
+Theorem time_T_extended_rs_rejected : forall H M S f o, valid_time H M S 0 = true -> frac_ok f = true -> offs_ok o = true ->
+  rs_parse_iso (iso_time true true H M S f o) = Raise E_ValueError.
+Proof. exact rs_parse_iso_T_extended_rejected. Qed.
+Print Assumptions time_T_extended_rs_rejected.
+
+(* date-only texts on the compiled side, the six forms (week forms: any ISO year 1..9999), and the agreement of the backends *)
+Theorem parse_render_date_forms_rs : forall form y m d, 0 <= form <= 5 -> valid_date y m d = true ->
+  (4 <= form -> 1 <= iso_year_of y m d <= 9999) ->
+  rs_parse_iso (render_date form y m d) = Ok (mkp 2 y m d 0 0 0 0 None).
+Proof. exact rs_parse_iso_render_date. Qed.
+Print Assumptions parse_render_date_forms_rs.
+
+Theorem rs_eq_py_on_date_forms : forall form y m d, 0 <= form <= 5 -> valid_date y m d = true ->
+  (4 <= form -> 1001 <= iso_year_of y m d <= 9998) ->
+  rs_parse_iso (render_date form y m d) = py_parse_iso (render_date form y m d).
+Proof. exact rs_eq_py_render_date. Qed.
+Print Assumptions rs_eq_py_on_date_forms.
+
+(* reduced precision after a date: <date>(T| )HH and <date>(T| )HH:MM / HHMM with every offset style, six date forms, both backends *)
+Theorem parse_forms_datetime_reduced_py : forall form sep prec y m d H M o,
+  0 <= form <= 5 -> sep = 84 \/ sep = 32 -> (prec <= 1)%nat -> valid_date y m d = true -> valid_time H M 0 0 = true ->
+  offs_ok o = true -> (4 <= form -> 1001 <= iso_year_of y m d <= 9998) ->
+  py_parse_iso (iso_datetimep form sep prec y m d H M o) = Ok (mkp 1 y m d H (minute_p prec M) 0 0 (offs_value o)).
+Proof. exact py_parse_iso_datetimep. Qed.
+Print Assumptions parse_forms_datetime_reduced_py.
+
+Theorem parse_forms_datetime_reduced_rs : forall form sep prec y m d H M o,
+  0 <= form <= 5 -> sep = 84 \/ sep = 32 -> (prec <= 1)%nat -> valid_date y m d = true -> valid_time H M 0 0 = true ->
+  offs_ok o = true -> (4 <= form -> 1 <= iso_year_of y m d <= 9999) ->
+  rs_parse_iso (iso_datetimep form sep prec y m d H M o) = Ok (mkp 1 y m d H (minute_p prec M) 0 0 (offs_value o)).
+Proof. exact rs_parse_iso_datetimep. Qed.
+Print Assumptions parse_forms_datetime_reduced_rs.
+
+Theorem rs_eq_py_on_forms_datetime_reduced : forall form sep prec y m d H M o,
+  0 <= form <= 5 -> sep = 84 \/ sep = 32 -> (prec <= 1)%nat -> valid_date y m d = true -> valid_time H M 0 0 = true ->
+  offs_ok o = true -> (4 <= form -> 1001 <= iso_year_of y m d <= 9998) ->
+  rs_parse_iso (iso_datetimep form sep prec y m d H M o) = py_parse_iso (iso_datetimep form sep prec y m d H M o).
+Proof. exact rs_eq_py_datetimep. Qed.
+Print Assumptions rs_eq_py_on_forms_datetime_reduced.
+
+(* reduced-precision time only.  Pure-Python: THH, THH:MM, THHMM, bare HH, bare HH:MM (bare HHMM is a four-digit year) *)
+Theorem parse_forms_time_reduced_py : forall pre ext prec H M o,
+  (prec <= 1)%nat -> (pre = true \/ prec = 0%nat \/ ext = true) -> valid_time H M 0 0 = true -> offs_ok o = true ->
+  py_parse_iso (iso_timep pre ext prec H M o) = Ok (mkp 3 0 0 0 H (minute_p prec M) 0 0 (offs_value o)).
+Proof. exact py_parse_iso_timep. Qed.
+Print Assumptions parse_forms_time_reduced_py.
+
+(* compiled: THH, THH:MM, THHMM and bare HH:MM ... *)
+Theorem parse_forms_time_reduced_rs : forall pre ext prec H M o,
+  (prec <= 1)%nat -> (pre = true \/ (prec = 1%nat /\ ext = true)) -> valid_time H M 0 0 = true -> offs_ok o = true ->
+  rs_parse_iso (iso_timep pre ext prec H M o) = Ok (mkp 3 0 0 0 H (minute_p prec M) 0 0 (offs_value o)).
+Proof. exact rs_parse_iso_timep. Qed.
+Print Assumptions parse_forms_time_reduced_rs.
+
+(* ... but a bare hour (with or without offset) is refused by the compiled parser: a backend divergence that is not among the listed
+   findings (the pure-Python parser reads time(H, 0, 0), parse_forms_time_reduced_py) *)
+Theorem time_bare_hour_rs_rejected : forall ext H M o, 0 <= H < 100 -> offs_ok o = true ->
+  rs_parse_iso (iso_timep false ext 0 H M o) = Raise E_ValueError.
+Proof. exact rs_parse_iso_bare_hour_rejected. Qed.
+Print Assumptions time_bare_hour_rs_rejected.
+
+Theorem rs_eq_py_on_forms_time_reduced : forall pre ext prec H M o,
+  (prec <= 1)%nat -> (pre = true \/ (prec = 1%nat /\ ext = true)) -> valid_time H M 0 0 = true -> offs_ok o = true ->
+  rs_parse_iso (iso_timep pre ext prec H M o) = py_parse_iso (iso_timep pre ext prec H M o).
+Proof. exact rs_eq_py_timep. Qed.
+Print Assumptions rs_eq_py_on_forms_time_reduced.
+
+(* exact=True returns the narrowest type, either backend: a date-only text (six forms) is a date; without exact, midnight in the tz option *)
+Theorem exact_date_text_is_a_date : forall (rs exact : bool) tzopt now form y m d,
+  0 <= form <= 5 -> valid_date y m d = true -> (4 <= form -> 1001 <= iso_year_of y m d <= 9998) ->
+  parse_top rs exact tzopt now (render_date form y m d) =
+  if exact then Ok (mkp 2 y m d 0 0 0 0 None) else to_datetime y m d 0 0 0 0 (deftz_of tzopt).
+Proof. exact parse_top_date. Qed.
+Print Assumptions exact_date_text_is_a_date.
+
+(* a time-only text is a (naive) time with exact=True, and that time on `now`'s day in the tz option without; the side condition lists the
+   time-only forms each backend accepts *)
+Theorem exact_time_text_is_a_time : forall (rs exact : bool) tzopt now pre ext H M S f o,
+  (if rs then (pre = false /\ ext = true) \/ (pre = true /\ ext = false) else pre = true \/ ext = true) ->
+  valid_time H M S 0 = true -> frac_ok f = true -> offs_ok o = true ->
+  parse_top rs exact tzopt now (iso_time pre ext H M S f o) =
+  if exact then Ok (mkp 3 0 0 0 H M S (frac_value f) None)
+  else let '(ny, nm, nd) := now in to_datetime ny nm nd H M S (frac_value f) (deftz_of tzopt).
+Proof. exact parse_top_time. Qed.
+Print Assumptions exact_time_text_is_a_time.
+
+Theorem exact_reduced_time_text_is_a_time : forall (rs exact : bool) tzopt now pre ext prec H M o,
+  (prec <= 1)%nat -> (if rs then pre = true \/ (prec = 1%nat /\ ext = true) else pre = true \/ prec = 0%nat \/ ext = true) ->
+  valid_time H M 0 0 = true -> offs_ok o = true ->
+  parse_top rs exact tzopt now (iso_timep pre ext prec H M o) =
+  if exact then Ok (mkp 3 0 0 0 H (minute_p prec M) 0 0 None)
+  else let '(ny, nm, nd) := now in to_datetime ny nm nd H (minute_p prec M) 0 0 (deftz_of tzopt).
+Proof. exact parse_top_timep. Qed.
+Print Assumptions exact_reduced_time_text_is_a_time.
+
+(* a date with a (reduced-precision) time is a DateTime whatever `exact` (full precision: parse_top_forms_datetime above) *)
+Theorem parse_top_forms_datetime_reduced : forall (rs exact : bool) tzopt now form sep prec y m d H M o,
+  0 <= form <= 5 -> sep = 84 \/ sep = 32 -> (prec <= 1)%nat -> valid_date y m d = true -> valid_time H M 0 0 = true ->
+  offs_ok o = true -> (4 <= form -> 1001 <= iso_year_of y m d <= 9998) -> (forall t, tzopt = Some t -> -86400 < t < 86400) ->
+  parse_top rs exact tzopt now (iso_datetimep form sep prec y m d H M o) =
+  Ok (mkp 1 y m d H (minute_p prec M) 0 0 (Some (match offs_value o with Some v => v | None => deftz_of tzopt end))).
+Proof. exact parse_top_datetimep. Qed.
+Print Assumptions parse_top_forms_datetime_reduced.
